@@ -123,7 +123,7 @@ def write_v1(model_dir, spec, unit=u.mJy):
     return model_dir
 
 
-def write_v2(model_dir, spec, with_unc=True, unit=u.mJy):
+def write_v2(model_dir, spec, with_unc=True, unit=u.mJy, valid=None):
     """Cube package: flux.fits, models.conf (version = 2), parameters.fits.
 
     The cube format requires the parameter table in cube order, so rows are
@@ -139,6 +139,8 @@ def write_v2(model_dir, spec, with_unc=True, unit=u.mJy):
     cube.val = spec.flux[order] * unit
     if with_unc:
         cube.unc = spec.error[order] * unit
+    if valid is not None:
+        cube.valid = np.asarray(valid, dtype=bool)       # per-model flag stored with the cube; a flagged model still has its SED
     cube.write(os.path.join(model_dir, 'flux.fits'))
     _write_conf(model_dir, spec, 2)
     _write_params(model_dir, spec, order)
